@@ -209,6 +209,34 @@ func ruleRowCache(p *Prog, r *Result) {
 		})
 		return any && okAll
 	}
+	// clearsOnEveryAccept: in the callee, every return that can report `the row passes` (not a constant false, not an
+	// error) lies behind a Clear of its context parameter. (clearsFirst is about the callee's own cache use; a
+	// consumer that relies on the callee to have emptied the context needs it emptied on every accepting way out -
+	// also on a fast path that never touches the cache.)
+	clearsOnEveryAccept := func(callee *ssa.Function, ctxIdx int) bool {
+		if callee == nil || callee.Blocks == nil || ctxIdx >= len(callee.Params) {
+			return false
+		}
+		cp := ssa.Value(callee.Params[ctxIdx])
+		for _, b := range callee.Blocks {
+			ret := retOf(b)
+			if ret == nil || len(ret.Results) == 0 {
+				continue
+			}
+			if bv, isB := constBool(retVal(ret, 0)); isB && !bv {
+				continue
+			}
+			if len(ret.Results) > 1 && !isNilConst(retVal(ret, len(ret.Results)-1)) {
+				if _, isPhi := retVal(ret, len(ret.Results)-1).(*ssa.Phi); !isPhi {
+					continue // an error return
+				}
+			}
+			if !clearedBefore(callee, ret, cp, nil) {
+				return false
+			}
+		}
+		return true
+	}
 	loopVariant := func(v ssa.Value, L *Loop) bool {
 		variant := false
 		seen := map[ssa.Value]bool{}
@@ -444,7 +472,7 @@ func ruleRowCache(p *Prog, r *Result) {
 			if !okv && mn == "Next" {
 				// row mode: it is enough that every child hands out a row only after FilterExec.Filter ran on it with
 				// the same context (Filter clears the per-row cache before evaluating)
-				if ff := p.MethodByName("FilterExec", "Filter"); ff != nil && clearsFirst(ff, 2) {
+				if ff := p.MethodByName("FilterExec", "Filter"); ff != nil && clearsFirst(ff, 2) && clearsOnEveryAccept(ff, 2) {
 					all, any := true, false
 					for _, t := range p.readerPlans() {
 						cn := p.Method(t, "Next")
